@@ -358,6 +358,19 @@ nice_component_close (NiceAgent *agent, NiceStream *stream, NiceComponent *cmp)
   g_slist_free_full (cmp->remote_candidates,
       (GDestroyNotify) nice_candidate_free);
   cmp->remote_candidates = NULL;
+
+  /* A TURN refresh that is still being removed asynchronously (e.g. after
+   * nice_agent_forget_relays()) keeps using its socket: drop it before the
+   * sockets are freed. */
+  {
+    GSList *i;
+
+    for (i = cmp->socket_sources; i; i = i->next) {
+      SocketSource *source = i->data;
+
+      refresh_prune_socket (agent, source->socket);
+    }
+  }
   nice_component_free_socket_sources (cmp);
 
   while ((c = g_queue_pop_head (&cmp->incoming_checks)))
